@@ -320,6 +320,67 @@ def rule_counters(run, prog):
            "_rule" in rm.live_slots("CheckLineCount"), "CheckLineCount is not run after every statement", None)
 
 
+def _scope_type_guard(fn, node) -> bool:
+    """Is *node* only reached when the current scope is file level / a type body -- so that no open block of a function is
+    among the scopes it climbs through?  Accepted: the enclosing run() (or the run() of the helper's class) returns early
+    unless type(context.scope) is GlobalScope [/ UserDefinedType], or a dominating test history[-1] == 'IsFuncDeclaration'
+    (that primary is itself so guarded)."""
+    cls = fn.cls
+    cands = [fn]
+    if cls is not None and fn.name != "run" and "run" in cls.methods:
+        cands.append(cls.methods["run"])
+    for f in cands:
+        for st in f.node.body[:6]:
+            if isinstance(st, ast.If) and st.body and isinstance(st.body[-1], ast.Return):
+                parts = st.test.values if isinstance(st.test, ast.BoolOp) and isinstance(st.test.op, ast.And) else [st.test]
+                if parts and all(text(p_) in ("type(context.scope) is not GlobalScope", "type(context.scope) is not UserDefinedType",
+                                              "type(context.scope) != GlobalScope", "type(context.scope) != UserDefinedType")
+                                 for p_ in parts):
+                    return True
+    for a in ancestors(node):
+        if isinstance(a, ast.If) and text(a.test) == "context.history[-1] == 'IsFuncDeclaration'" and any(
+                x is node or any(y is node for y in ast.walk(x)) for x in a.body):
+            return True
+    return False
+
+
+def rule_outer_effect(run, prog):
+    run.rule("R-3.5", "effect / ordering / who-may-call: Scope.outer() adds the scope's line count to its parent.  It may be "
+             "applied (a) in Context.update, to the current scope, when that scope is left -- update runs after the check "
+             "phase, so the closing statement's own lines are already counted -- or (b) where no open block of a function "
+             "can be climbed through (statement recognised at file level / in a type body).  A call in a rule's run() on an "
+             "open scope double-counts the block's lines; a call in a Primary that closes the scope comes before "
+             "CheckLineCount and loses the closing line", floor=4)
+    n = 0
+    for fn in prog.fns:
+        for c in walk_fn(fn.node):
+            if isinstance(c, ast.Call) and isinstance(c.func, ast.Attribute) and c.func.attr == "outer" and not c.args:
+                n += 1
+                par = parent(c)
+                if fn.key == "context.py::Context.update":
+                    recv = text(c.func.value) == "self.scope"
+                    if isinstance(par, ast.Assign):
+                        ok = recv and text(par.targets[0]) == "self.scope"
+                    else:
+                        blk = parent(par)
+                        after = []
+                        if isinstance(par, ast.Expr) and isinstance(blk, ast.If):
+                            outer_blk = parent(blk)
+                            body = getattr(outer_blk, "body", [])
+                            idx = [i for i, s_ in enumerate(body) if s_ is blk]
+                            after = body[idx[0] + 1:] if idx else []
+                        ok = recv and "self.sub is self.scope.parent" in text(getattr(blk, "test", None)) and bool(after) \
+                            and text(after[0]) == "self.scope = self.sub"
+                    why = "the closing site no longer applies it to the current scope exactly when that scope is replaced by its parent"
+                else:
+                    ok = _scope_type_guard(fn, c)
+                    why = ("called from a rule on a scope that may be an open block of a function, or that is only being closed "
+                           "(use get_outer() to look at / designate the parent): its lines are added to the function before the "
+                           "closing line is counted, or twice")
+                run.ob("R-3.5", f"{fn.key}::outer[{text(par, 40)}]", ok, f"Scope.outer(): {why}", c)
+    run.require(n >= 4, f"only {n} calls of Scope.outer() found (floor 4)")
+
+
 def rule_tabstops(run, prog):
     run.rule("R-3.3", "tab stops: the statements Lexer.pop executes for a tab, interpreted by the analyser for start "
              "columns 1..12, advance the column by 1..4 to the next column congruent to 1 modulo 4, and expand to that many "
@@ -435,4 +496,5 @@ def check(run, prog):
     rule_thresholds(run, prog)
     rule_scan_complete(run, prog)
     rule_counters(run, prog)
+    rule_outer_effect(run, prog)
     rule_tabstops(run, prog)
